@@ -152,6 +152,14 @@ let handle line =
         | n :: m :: e :: rest -> (cps n, (z_of_string m, z_of_string e)) :: triples rest
         | _ -> [] in
       outcome_js prog_js (bb_instantiate [] (cps cwd) (cps text) (triples sg))
+  | ["SERSKEL"; cwd; text] ->
+      (match bb_ser_skel (cps cwd) (cps text) with
+       | None -> "null"
+       | Some l -> "[" ^ String.concat "," (List.map json_str l) ^ "]")
+  | ["TEXTSKEL"; text] ->
+      (match bb_text_skel (cps text) with
+       | None -> "null"
+       | Some l -> "[" ^ String.concat "," (List.map json_str l) ^ "]")
   | ["DIGRAPH"; ws] ->
       (* operations separated by ';', each a comma separated wire list *)
       let ops = if ws = "" then [] else List.map (fun o -> List.map nat_of_int (ints o)) (String.split_on_char ';' ws) in
